@@ -17,6 +17,7 @@ void CanSettingChanged::read(AbstractFile & is) {
     is.read(reinterpret_cast<char *>(&changedType), sizeof(changedType));
     bitTimings.read(is);
     // @note reservedCanFdExtFrameData is read here as CanFdExtFrameData doesn't know the objectSize
+    bitTimings.reservedCanFdExtFrameData.clear(); // calculateObjectSize() below must not count what the object held before
     bitTimings.reservedCanFdExtFrameData.resize(objectSize - calculateObjectSize());
     is.read(reinterpret_cast<char *>(bitTimings.reservedCanFdExtFrameData.data()), static_cast<std::streamsize>(bitTimings.reservedCanFdExtFrameData.size()));
 }
